@@ -1,6 +1,6 @@
 (* C04 — property theorems only (byte-level model of the fixed-point text functions). *)
 From Coq Require Import ZArith List Bool Lia.
-From Verif Require Import common.Word64 C03.Model C03.Proofs C04.Model C04.Proofs C04.ProofsRT C04.ProofsLit.
+From Verif Require Import common.Word64 C03.Model C03.Proofs C04.Model C04.Proofs C04.ProofsRT C04.ProofsLit C04.ProofsRej.
 Import ListNotations.
 Open Scope Z_scope.
 
@@ -73,6 +73,25 @@ Proof. repeat split; reflexivity. Qed.
 (* non-vacuity: the extreme values meet fitsw *)
 Example C04_ex_fitsw : fitsw false (- SIGN) /\ fitsw false (SIGN - 1) /\ fitsw true (- P127) /\ fitsw true (P127 - 1).
 Proof. unfold fitsw, fits. repeat split; lia. Qed.
+
+(* rejection, for ALL byte strings: the numeral parsers FromString rests on (strconv.ParseInt base 10 / big.Int SetString) accept
+   exactly an optional single sign followed by a non-empty run of decimal digits - never an empty numeral, never a byte outside
+   0-9 after the first position -, a negative value only under '-', and for int64 only values inside the int64 range *)
+Theorem C04_numeral_accepted_only_if_well_formed : forall s v, parse_signed s = Some v ->
+  exists body, body <> [] /\ (forall c, In c body -> is_digit c = true) /\
+    ((s = 45 :: body /\ v <= 0) \/ (s = 43 :: body /\ 0 <= v) \/ (s = body /\ 0 <= v)).
+Proof. exact parse_signed_shape. Qed.
+Print Assumptions C04_numeral_accepted_only_if_well_formed.
+Theorem C04_numeral_with_stray_byte_rejected : forall s c, In c (tl s) -> is_digit c = false -> parse_signed s = None.
+Proof. exact parse_signed_rejects. Qed.
+Print Assumptions C04_numeral_with_stray_byte_rejected.
+Theorem C04_int64_numeral_in_range : forall s v, parseInt64 s = Some v -> parse_signed s = Some v /\ - SIGN <= v < SIGN.
+Proof. exact parseInt64_shape. Qed.
+Print Assumptions C04_int64_numeral_in_range.
+Example C04_ex_rejects : parse_signed [49; 50; 120] = None /\ parse_signed [45] = None /\ parse_signed [] = None /\
+  parse_signed [45; 49; 50] = Some (-12) /\ parseInt64 [57;50;50;51;51;55;50;48;51;54;56;53;52;55;55;53;56;48;56] = None /\
+  fx_from_string 2 false [49; 120; 46; 53] = PErr /\ fx_from_string 2 true [49; 46; 120] = PErr.
+Proof. repeat split; vm_compute; reflexivity. Qed.
 
 (* regression examples: canonical text, the sign of -00.5, the int64 minimum, saturation of f128 *)
 Example C04_ex_string : fx_string 2 (-5) = [45; 48; 46; 48; 53] /\ fx_string 2 1230 = [49; 50; 46; 51] /\ fx_string 3 (-7000) = [45; 55].
